@@ -27,7 +27,24 @@ Theorem C03_affine : forall cf cs a_is_x is_left sa_is_x rev N k t,
   snd (d k t) = snd (d 1 0) + (k - 1) * (snd (d 2 0) - snd (d 1 0)) + t * (snd (d 1 1) - snd (d 1 0)).
 Proof. exact delta_affine. Qed.
 
+(* The cell C05 documents as the source of a halo cell (k cells inward from the linked edge
+   of the neighbour, along-edge position kept or mirrored) is, across a link that matches
+   the charts, the cell of the undivided domain k cells beyond this face's edge: padding
+   by the face-connection rule reads the undivided domain's neighbour values, so the
+   stencil operators, which read only the array and its halo, give the undivided answer. *)
+Theorem C03_documented_cell_is_global : forall dom cf cs a_is_x is_left sa_is_x rev (N k t : nat),
+  0 < dom_lx dom -> 0 < dom_ly dom ->
+  link_consistentb dom cf cs a_is_x is_left sa_is_x rev (Z.of_nat N) = true ->
+  (1 <= k <= N)%nat -> (t < N)%nat ->
+  let swap := negb (Bool.eqb a_is_x sa_is_x) in
+  let o := Z.of_nat (S05.ortho_index is_left rev N k) in
+  let t' := Z.of_nat (P05.along swap rev N t) in
+  gmod dom (chart_apply cs (if sa_is_x then (o, t') else (t', o))) =
+  gmod dom (chart_apply cf (halo_pos a_is_x is_left (Z.of_nat N) (Z.of_nat k) (Z.of_nat t))).
+Proof. exact documented_cell_is_global. Qed.
+
 Print Assumptions C03_unfold.
+Print Assumptions C03_documented_cell_is_global.
 Print Assumptions C03_affine.
 
 (* Non-vacuity: a periodic 1 x 2 domain of 3 x 3 faces, face 0 turned by 270 degrees and
